@@ -23,13 +23,29 @@ Require Import Cirbo.Model.Base Cirbo.Model.Gate Cirbo.Model.Circuit Cirbo.Model
         Cirbo.Model.Connect Cirbo.Model.History Cirbo.Model.WF.
 Require Import Cirbo.Proofs.WFEmplace Cirbo.Proofs.WFConnect1 Cirbo.Proofs.WFConnect2 Cirbo.Proofs.WFStep Cirbo.Proofs.WFSound Cirbo.Proofs.SemConnectStruct
         Cirbo.Proofs.SemConnectLeft Cirbo.Proofs.SemConnectRight Cirbo.Proofs.SemConnectWrappers
-        Cirbo.Proofs.SemBlock Cirbo.Proofs.SemConnectTotal.
+        Cirbo.Proofs.SemBlock Cirbo.Proofs.SemConnectTotal Cirbo.Proofs.EvalEntry Cirbo.Proofs.ArityPreserve.
 
 (* ---- the result is well formed (from C02) ---- *)
 Theorem C10_result_wf : forall base other tc oc right name ap r,
   WF base -> inputs_nullary base -> WF other -> inputs_nullary other ->
   connect_circuit base other tc oc right name ap = Ok r -> WF r /\ inputs_nullary r.
 Proof. exact connect_circuit_inv. Qed.
+
+(* ---- ... and has accepted arities when both constituents have: copied gates keep their type and
+   operand count.  Hence the evaluators are total on the result (C01_evaluate_complete,
+   C01_truth_table_complete): evaluate r vals returns the list of the Eval values of the outputs
+   described by the theorems below ---- *)
+Theorem C10_result_arities_accepted : forall base other tc oc right name ap r,
+  WF other -> connect_circuit base other tc oc right name ap = Ok r ->
+  arity_ok base -> arity_ok other -> arity_ok r.
+Proof. exact connect_circuit_arity_ok. Qed.
+
+Theorem C10_result_evaluates : forall base other tc oc right name ap r vals,
+  WF base -> inputs_nullary base -> WF other -> inputs_nullary other ->
+  arity_ok base -> arity_ok other ->
+  connect_circuit base other tc oc right name ap = Ok r -> length (inputs r) <= length vals ->
+  exists vs, evaluate r vals = Ok vs /\ Forall2 (Eval r (vec_assignment r vals)) (outputs r) vs.
+Proof. exact connect_circuit_evaluates. Qed.
 
 (* ---- LEFT connection: inputs oc_i of other are fed by the gates tc_i of base
         (repeated base gates allowed, any subset of the inputs of other) ---- *)
